@@ -68,6 +68,14 @@ const (
 	nOpKinds
 )
 
+const (
+	hookNone        = 0 // pool built without a close hook
+	hookInstant     = 1
+	hookPark        = 2 // parks until the quiescence point after the next burst
+	hookReenter     = 3 // calls Streams / RemoveTagsById / Broadcast from inside the hook
+	hookParkReenter = 4
+)
+
 const nTags = 4
 
 type StreamSpec struct {
@@ -103,6 +111,7 @@ type Case struct {
 	Workers    int          `json:"workers"`
 	DialQueue  int          `json:"dial_queue"`
 	SharedTags bool         `json:"shared_tags"` // streams with equal tag lists hand the pool the same slice
+	Hook       int          `json:"hook"`        // behaviour of the WithStreamCloseHook callback (hook* constants)
 	Ops        []Op         `json:"ops"`
 	Sched      []int        `json:"sched"` // per quiescence point: 0 nothing, k>0 release one send of the (k-1 mod n)-th parked slow stream
 }
@@ -170,6 +179,7 @@ func norm(c Case) Case {
 	c.Initial = clamp(c.Initial, 0, len(c.Streams))
 	c.Workers = clamp(c.Workers, 1, 3)
 	c.DialQueue = clamp(c.DialQueue, 1, 5)
+	c.Hook = clamp(c.Hook, 0, 4)
 	if len(c.Ops) > 40 {
 		c.Ops = c.Ops[:40]
 	}
@@ -372,6 +382,7 @@ type harness struct {
 	dq           int
 	step         int
 
+	burstAt  atomic.Int32 // mirror of burstNo for the hook goroutines
 	progress atomic.Int32
 	abort    atomic.Bool
 	vioMu    sync.Mutex
@@ -430,7 +441,11 @@ func newHarness(c Case) *harness {
 		h.peers = append(h.peers, &fakePeer{id: id, ctx: peer.CtxWithPeerId(context.Background(), id)})
 	}
 	h.streams = make([]*mStream, len(c.Streams))
-	h.pool = streampool.NewStreamPool(h.hd, streampool.StreamConfig{SendQueueSize: 10, DialQueueWorkers: c.Workers, DialQueueSize: c.DialQueue})
+	var opts []streampool.Option
+	if c.Hook != hookNone {
+		opts = append(opts, streampool.WithStreamCloseHook(h.hd.closeHook))
+	}
+	h.pool = streampool.NewStreamPool(h.hd, streampool.StreamConfig{SendQueueSize: 10, DialQueueWorkers: c.Workers, DialQueueSize: c.DialQueue}, opts...)
 	return h
 }
 
@@ -580,6 +595,7 @@ func (h *harness) pick(a int) *mStream {
 // ---- executing one op (op goroutine) --------------------------------------------------------
 
 func (h *harness) exec(o Op) {
+	beat.Add(1)
 	if o.N > 1 {
 		n := o.N
 		o.N = 1
@@ -868,6 +884,7 @@ func (h *harness) execSend(o Op) {
 
 func (h *harness) runBurst(ops []Op) chan struct{} {
 	h.burstNo++
+	h.burstAt.Store(int32(h.burstNo))
 	h.burstSolo = len(ops) == 1 && ops[0].N <= 1
 	h.burstSends = 0
 	h.burstAsync = nil
@@ -1030,7 +1047,9 @@ func keys(m map[int]bool) []int {
 
 // settle: quiesce, drain the healthy streams, take one schedule step, then check.
 func (h *harness) settle(done chan struct{}, ops []Op) {
+	beat.Add(1)
 	synctest.Wait()
+	beat.Add(1)
 	h.integrateDials()
 	for {
 		released := false
@@ -1048,6 +1067,7 @@ func (h *harness) settle(done chan struct{}, ops []Op) {
 		if !released {
 			break
 		}
+		beat.Add(1)
 		synctest.Wait()
 		h.integrateDials()
 	}
@@ -1069,6 +1089,12 @@ func (h *harness) settle(done chan struct{}, ops []Op) {
 			i, ops[i], parked, stuck)
 		h.abort.Store(true)
 		return
+	}
+	// close hooks that parked before this burst have now been parked through a whole burst
+	// of pool calls (all of which returned): let them finish
+	if n := h.hd.releaseHooks(h.burstNo); n > 0 {
+		h.class("ops-while-close-hook-parked")
+		synctest.Wait()
 	}
 	// one schedule step
 	k := 0
@@ -1129,11 +1155,15 @@ func (h *harness) check() {
 			s.dying, s.dead = false, true
 			s.pending = nil
 			s.f.markDead()
-			if s.readRet != nil {
-				select {
-				case <-s.readRet:
-					s.readRet = nil
-				default:
+		}
+		if s.dead && s.readRet != nil {
+			select {
+			case <-s.readRet:
+				s.readRet = nil
+			default:
+				// the close hook runs on the read loop's goroutine: while one is parked
+				// ReadStream legitimately has not returned yet
+				if h.hd.hooksParked() == 0 {
 					h.violate("ReadStream of ended stream %s has not returned", s.f.key)
 				}
 			}
@@ -1217,11 +1247,13 @@ func (h *harness) checkIndex() {
 }
 
 func (h *harness) teardown() {
+	beat.Add(1)
 	h.abort.Store(true)
 	// 1. open every gate: live streams drain, parked dials give up, queued tasks run
 	h.hd.mu.Lock()
 	h.draining = true
 	h.hd.mu.Unlock()
+	h.hd.releaseHooks(1 << 30)
 	for _, s := range h.allStreams() {
 		s.f.setDrain()
 	}
@@ -1370,11 +1402,14 @@ func clearCurrent() {
 	}
 }
 
-// hangTimeout is real time. A case normally takes well under a millisecond; the bubble not
-// finishing means synctest.Wait never saw the pool quiesce: some goroutine is blocked for
-// good on something that is not a channel/timer (a mutex held by a call that is itself
-// parked on a stuck stream), or spins.
-const hangTimeout = 10 * time.Second
+// hangTimeout is real time. A case normally takes well under a millisecond and the
+// controller beats (beat counter) at every op and every quiescence step; no beat for this
+// long means synctest.Wait never saw the pool quiesce: some goroutine is blocked for good
+// on something that is not a channel/timer (a mutex held by a call or a close hook that is
+// itself parked), or spins.
+const hangTimeout = 3 * time.Second
+
+var beat atomic.Int64
 
 type runResult struct {
 	out vstat.Outcome
@@ -1399,14 +1434,21 @@ func run(c Case) (vstat.Outcome, error) {
 			r.out, r.err = runInBubble(c)
 		})
 	}()
-	tm := time.NewTimer(hangTimeout)
-	defer tm.Stop()
-	select {
-	case r := <-res:
-		return r.out, r.err
-	case <-tm.C:
-		return vstat.Outcome{}, fmt.Errorf("pool wedged: the case did not quiesce within %v of real time (a goroutine is blocked on a lock held by a call that waits for a stuck stream, or spins)\n%s",
-			hangTimeout, poolStacks())
+	tick := time.NewTicker(50 * time.Millisecond)
+	defer tick.Stop()
+	last, since := beat.Load(), time.Now()
+	for {
+		select {
+		case r := <-res:
+			return r.out, r.err
+		case <-tick.C:
+			if b := beat.Load(); b != last {
+				last, since = b, time.Now()
+			} else if time.Since(since) > hangTimeout {
+				return vstat.Outcome{}, fmt.Errorf("pool wedged: the case made no progress for %v of real time: synctest.Wait never saw the pool quiesce (a goroutine is blocked on a lock held by a call or a close hook that is itself parked, or spins)\n%s",
+					hangTimeout, poolStacks())
+			}
+		}
 	}
 }
 
@@ -1470,6 +1512,7 @@ func genCase(rt *rapid.T) Case {
 	c.Workers = rapid.IntRange(1, 3).Draw(rt, "workers")
 	c.DialQueue = rapid.IntRange(1, 5).Draw(rt, "dialQueue")
 	c.SharedTags = rapid.IntRange(0, 3).Draw(rt, "sharedTags") == 0
+	c.Hook = rapid.SampledFrom([]int{0, 1, 2, 2, 3, 4, 4}).Draw(rt, "hook")
 	nOps := rapid.IntRange(1, 24).Draw(rt, "nOps")
 	kinds := []int{opSend, opSend, opSendById, opSendById, opBroadcast, opBroadcast, opBroadcast, opBroadcast,
 		opAddTags, opAddTags, opRemoveTags, opRemoveTags, opRemoveTagsById, opClose, opRecvErr, opHandlerErr, opAddStream}
